@@ -6,6 +6,7 @@ package harness
 
 import (
 	"fmt"
+	"pgregory.net/rapid"
 	"time"
 )
 
@@ -240,6 +241,70 @@ func c05Units(tier string, seed int64) []Unit {
 			}
 		}})
 	}
+	// the shrinker itself, started from every failing stream that E1 and the PRNG find, for generators whose
+	// rejected attempts are removed from the recording while minimization is under way (so that an accepted
+	// step can make the recording much shorter): it terminates without a time limit, does not crash, and
+	// returns a recording that is no larger and fails at the same place
+	for _, sp := range c05ShrinkProgs() {
+		sp := sp
+		units = append(units, Unit{Name: "C05/shrinker-survives/" + sp.name, Run: func(c *Ctx) {
+			tb := NewTB("C05")
+			tb.Quiet = true
+			try := func(start []uint64, how string, devs int) {
+				var first, res rapid.VerifResult
+				var out []uint64
+				ExecBegin("shrink " + sp.name + " from " + how)
+				esc := Guard(func() { first, out, res = rapid.VerifShrink(tb, start, time.Hour, sp.prop) })
+				ExecEnd()
+				c.R.Evals++
+				replay := map[string]any{"engine": "shrink", "program": sp.name, "start_words": start, "how": how}
+				if esc != nil {
+					c.Violate(Violation{Sig: "C05 minimization-crashes prog=" + sp.name, Detail: fmt.Sprintf("minimizing the failing case %s (%s) ended in a panic that escaped: %v", fmtWords(start), how, esc), Replay: replay, Devs: devs})
+					return
+				}
+				if first.Kind != rapid.VerifFail && first.Kind != rapid.VerifPanic {
+					return
+				}
+				c.R.States++
+				c.Outcome(fmt.Sprintf("%s -> %s", fmtWords(first.Pruned), fmtWords(out)), len(out) < len(first.Data))
+				if res.Kind != first.Kind || res.Traceback != first.Traceback {
+					c.Violate(Violation{Sig: "C05 minimization-returned-another-failure prog=" + sp.name, Detail: fmt.Sprintf("start %s: %s %q; result %s: %s %q", fmtWords(start), kindName(first.Kind), first.Msg, fmtWords(out), kindName(res.Kind), res.Msg), Replay: replay, Devs: devs})
+				}
+				if !shortlexLE(out, first.Data) {
+					c.Violate(Violation{Sig: "C05 minimized-larger-than-original prog=" + sp.name, Detail: fmt.Sprintf("start %s, result %s", fmtWords(first.Data), fmtWords(out)), Replay: replay, Devs: devs})
+				}
+			}
+			for _, base := range []func(int) uint64{BaseZero, BaseOnes, BaseMid} {
+				e := &BitDFS{Base: base, Depth: 8, MaxDev: 2, PRNGFaithful: true, Alpha: LevelAlpha(AlphaAll(3, AlphaFull(128)), AlphaAll(2, AlphaEdge)), MaxExecs: 40000}
+				if !quick {
+					e.Depth, e.MaxDev, e.MaxExecs = 12, 3, 300000
+				}
+				e.Explore(c, func(src *Source, devs int) {
+					res := rapid.VerifRunSource(tb, src, false, sp.prop)
+					c.R.Transitions++
+					if res.Kind == rapid.VerifFail || res.Kind == rapid.VerifPanic {
+						try(res.Data, "explorer-found failing stream", devs)
+					}
+				})
+			}
+			ns := 400
+			if !quick {
+				ns = 20000
+			}
+			for k := 0; k < ns; k++ {
+				if k&63 == 0 && c.Expired() {
+					c.Cap("time budget")
+					return
+				}
+				sd := uint64(seed)*7919 + uint64(k) + 1
+				res := rapid.VerifRunSeed(tb, sd, false, sp.prop)
+				c.R.Transitions++
+				if res.Kind == rapid.VerifFail || res.Kind == rapid.VerifPanic {
+					try(res.Data, fmt.Sprintf("PRNG seed %d", sd), 9)
+				}
+			}
+		}})
+	}
 	return units
 }
 
@@ -254,4 +319,58 @@ func init() {
 		Units:       c05Units,
 		Budget:      map[string]time.Duration{"quick": 55 * time.Second, "thorough": 25 * time.Minute},
 	})
+}
+
+type c05ShrinkProg struct {
+	name string
+	prop func(t *rapid.T)
+}
+
+// c05ShrinkProgs: properties over generators that reject attempts, with failure regions chosen so that a
+// smaller candidate often fails through another path of the generator (a retry that consumes fewer words).
+func c05ShrinkProgs() []c05ShrinkProg {
+	varlen := rapid.Custom(func(t *rapid.T) int {
+		if !rapid.Bool().Draw(t, "b") {
+			return int(rapid.Uint8().Draw(t, "v"))
+		}
+		return -1
+	}).Filter(func(v int) bool { return v != 32 && v != 3 })
+	distinct := rapid.SliceOfNDistinct(rapid.IntRange(0, 5), 0, 4, rapid.ID[int])
+	return []c05ShrinkProg{
+		{"filtered variable-length Custom, failing through two paths", func(t *rapid.T) {
+			xb := rapid.Bool().Draw(t, "xb")
+			v := varlen.Draw(t, "v")
+			if v >= 0 {
+				rapid.Bool().Draw(t, "w")
+			}
+			if (v >= 10 && v < 100) || (v == -1 && !xb) {
+				t.Fatalf("boom")
+			}
+		}},
+		{"two filtered variable-length draws", func(t *rapid.T) {
+			a := varlen.Draw(t, "a")
+			b := varlen.Draw(t, "b")
+			if a+b >= 40 || (a == -1 && b >= 0) {
+				t.Fatalf("boom")
+			}
+		}},
+		{"SliceOfNDistinct then a tail, failing on sum or on an empty slice with a big tail", func(t *rapid.T) {
+			s := distinct.Draw(t, "s")
+			tail := rapid.Uint16().Draw(t, "tail")
+			sum := 0
+			for _, x := range s {
+				sum += x
+			}
+			if sum >= 9 || (len(s) == 0 && tail >= 300) || (len(s) == 1 && tail == 7) {
+				t.Fatalf("boom")
+			}
+		}},
+		{"map with colliding keys, failing on size or on one entry", func(t *rapid.T) {
+			m := rapid.MapOfN(rapid.IntRange(0, 3), rapid.Uint8(), 0, 3).Draw(t, "m")
+			last := rapid.Bool().Draw(t, "last")
+			if len(m) == 3 || (len(m) == 1 && m[0] >= 16 && last) || (len(m) == 0 && last) {
+				t.Fatalf("boom")
+			}
+		}},
+	}
 }
